@@ -421,6 +421,9 @@ var execMu sync.Mutex // the hook handler is process-global
 
 func (Area) Exec(input string) string {
 	f := strings.Fields(input)
+	if len(f) > 0 && f[0] == "stress" {
+		return execStress(f)
+	}
 	if len(f) < 2 || (f[0] != "P" && f[0] != "S") {
 		return "BADINPUT"
 	}
@@ -562,6 +565,19 @@ func enumSchedules(prefix string, over string, n int, f func(string)) {
 
 func (Area) Gen(r *rand.Rand, tier string, emit func(string)) {
 	thorough := tier == "thorough"
+	// uncontrolled stress (no yield points, real goroutines): reaches windows without a yield point
+	stressMs, stressSeeds := 400, 4
+	if thorough {
+		stressMs, stressSeeds = 2500, 4
+	}
+	for i := 0; i < stressSeeds; i++ {
+		emit(fmt.Sprintf("stress gap %d %d", r.Int63n(1<<30), stressMs))
+		emit(fmt.Sprintf("stress close %d %d", r.Int63n(1<<30), stressMs))
+		count("stress")
+	}
+	if stressFound.Load() {
+		return // a violating input is in hand; the controlled scenarios add nothing to the verdict
+	}
 	for _, k := range []string{"P", "S"} {
 		// the D11 schedule: update passes the closed check and parks, Close runs, update resumes, lookup, re-watch
 		emit(k + " W0.0;U0.0.1.12;C0;L1,W0.1,L1 0122133333")
